@@ -62,6 +62,21 @@ def make_op(kind, mat, herm):
         P = mat * 0.25
         return (LinearOperator.m(P, is_hermitian=herm) * 2.0 + MvRmv(mat - 2.0 * P, herm)) if not herm else \
             (LinearOperator.m(P, is_hermitian=True) * 2.0 + MvOnly(mat - 2.0 * P, True))
+    if kind in ("diff", "adjdiff", "adjoint", "matmul"):
+        # operators built through the public algebra from matrix-free, NOT Hermitian-flagged operands whose combination is `mat`
+        with warnings.catch_warnings():
+            warnings.simplefilter("ignore")
+            R = 0.37 * mat.flip(-1) + 0.11 * mat.transpose(-2, -1)
+            H = lambda m_: m_.transpose(-2, -1).conj()
+            if kind == "diff":
+                return MvRmv(mat + R, False) - MvRmv(R, False)
+            if kind == "adjdiff":
+                return (MvRmv(H(mat) + R, False) - MvOnly(R, False)).H
+            if kind == "adjoint":
+                return MvRmv(H(mat), False).H
+            n_ = mat.shape[-1]
+            T = torch.eye(n_, dtype=mat.dtype) + 0.2 * torch.tril(torch.ones(n_, n_, dtype=mat.dtype), -1)
+            return MvRmv(mat @ torch.linalg.inv(T), False).matmul(MvRmv(T.expand(*mat.shape[:-2], n_, n_).contiguous(), False))
     if kind == "jac":       # Jacobian operator of y -> mat @ y (unbatched only)
         y = torch.zeros(mat.shape[-1], dtype=mat.dtype).requires_grad_()
         return xitorch.grad.jac(lambda yy, mm: mm @ yy, (y, mat), idxs=0)
@@ -238,7 +253,7 @@ def case_list(thorough, rng):
         for mode in ("none", "E", "EM", "M"):
             for cls in ("spd", "indef", "nonherm"):
                 for dt in (("float64", "complex128") if not thorough else ("float64", "complex128", "float32")):
-                    ops = ["dense", "mvonly", "mvrmv"] + (["sum", "jac"] if thorough or (mode == "none" and dt == "float64") else [])
+                    ops = ["dense", "mvonly", "mvrmv"] + (["sum", "jac", "diff", "adjdiff", "adjoint", "matmul"] if thorough or (mode in ("none", "E") and dt == "float64") else [])
                     for op in ops:
                         bl = batches if (thorough or (op == "dense" and dt == "float64")) else batches[:2]
                         for (bA, bB, bE, bM) in bl:
